@@ -155,7 +155,7 @@ def render(e):
     k = e[0]
     if k == 'lit':
         return repr(e[1])
-    if k in ('ref', 'mseq'):
+    if k in ('ref', 'mseq', 'cref'):
         return 'v%d' % e[1]
     if k == 'list':
         return '[' + ', '.join(render(x) for x in e[1]) + ']'
@@ -194,6 +194,14 @@ def jugfile_text(spec):
                        % (i, s['fn'], ', '.join(render(a) for a in s['inputs']), s['step']))
         elif s['kind'] == 'ident':
             out.append('v%d = jug.utils.identity(%s)\n' % (i, render(s['arg'])))
+        elif s['kind'] == 'cont':
+            out.append('v%d = %s\n' % (i, '[]' if s['ctype'] == 'list' else '{}'))
+        elif s['kind'] == 'fill':
+            c = spec['stmts'][s['cont']]
+            if c['ctype'] == 'list':
+                out.append('v%d.append(%s)\n' % (s['cont'], render(s['arg'])))
+            else:
+                out.append('v%d[%r] = %s\n' % (s['cont'], s['key'], render(s['arg'])))
         else:
             raise ValueError(s)
     return ''.join(out)
@@ -212,6 +220,10 @@ def expr_deps(e, spec, out):
         return
     if k == 'ref':
         out.add(('t', e[1]))
+    elif k == 'cref':
+        for f in spec['stmts']:
+            if f['kind'] == 'fill' and f['cont'] == e[1]:
+                expr_deps(f['arg'], spec, out)
     elif k in ('list', 'tuple'):
         for x in e[1]:
             expr_deps(x, spec, out)
@@ -251,6 +263,8 @@ def oracle_tasks(spec):
             d = set()
             expr_deps(s['arg'], spec, d)
             out.append((('t', i), 'identity', None, d))
+        elif s['kind'] in ('cont', 'fill'):
+            pass
         else:
             for j in range(nblocks(s)):
                 d = set()
@@ -315,15 +329,35 @@ def fn_value(name, salts, a, k):
 
 
 def evaluate(spec, salts):
-    """plain-Python meaning of the program: value of every task, {task id: value}"""
+    """plain-Python meaning of the program: value of every task, {task id: value}.  Demand driven: a
+    container is read with its final content, so a task may use tasks created after it."""
     env, vals = {}, {}
+    stmts = spec['stmts']
+
+    def var(i):
+        if i in env:
+            return env[i]
+        s = stmts[i]
+        if s['kind'] == 'task':
+            v = fn_value(s['fn'], salts, [ev(a) for a in s['args']], dict((k, ev(a)) for k, a in s['kwargs']))
+        elif s['kind'] == 'ident':
+            v = ev(s['arg'])
+        elif s['kind'] == 'map':
+            v = [fn_value(s['fn'], salts, (ev(a),), {}) for a in s['inputs']]
+        elif s['kind'] == 'cont':
+            fills = [f for f in stmts if f['kind'] == 'fill' and f['cont'] == i]
+            v = [ev(f['arg']) for f in fills] if s['ctype'] == 'list' else dict((f['key'], ev(f['arg'])) for f in fills)
+        else:
+            raise ValueError(s)
+        env[i] = v
+        return v
 
     def ev(e):
         k = e[0]
         if k == 'lit':
             return e[1]
-        if k in ('ref', 'mseq'):
-            return env[e[1]]
+        if k in ('ref', 'mseq', 'cref'):
+            return var(e[1])
         if k == 'list':
             return [ev(x) for x in e[1]]
         if k == 'tuple':
@@ -335,27 +369,22 @@ def evaluate(spec, salts):
         if k == 'wrap':
             return (ev(e[1]),)
         if k == 'iter':
-            return env[e[1]][e[2]]
+            return var(e[1])[e[2]]
         if k == 'mslice':
-            v = env[e[1]]
+            v = var(e[1])
             for (a, b, c) in e[2]:
                 v = v[a:b:c]
             return v
         if k == 'mitem':
-            return env[e[1]][e[2]]
+            return var(e[1])[e[2]]
         if k == 'custom':
             return ev(e[1])
         raise ValueError(e)
-    for i, s in enumerate(spec['stmts']):
-        if s['kind'] == 'task':
-            env[i] = fn_value(s['fn'], salts, [ev(a) for a in s['args']], dict((k, ev(a)) for k, a in s['kwargs']))
-            vals[('t', i)] = env[i]
-        elif s['kind'] == 'ident':
-            env[i] = ev(s['arg'])
-            vals[('t', i)] = env[i]
-        else:
-            xs = [fn_value(s['fn'], salts, (ev(a),), {}) for a in s['inputs']]
-            env[i] = xs
+    for i, s in enumerate(stmts):
+        if s['kind'] in ('task', 'ident'):
+            vals[('t', i)] = var(i)
+        elif s['kind'] == 'map':
+            xs = var(i)
             for j in range(nblocks(s)):
                 vals[('b', i, j)] = xs[j * s['step']:(j + 1) * s['step']]
     return vals
@@ -383,6 +412,68 @@ class Gen:
 
     def vars_of(self, *types):
         return [i for i, t in enumerate(self.types) if t in types]
+
+    # -- late-filled containers: `v = []`, `t = f(v)`, `v.append(g(...))`.  The generator keeps the program
+    #    acyclic: a fill may not mention anything from which the container can be reached.
+    def refs(self, e, out):
+        k = e[0]
+        if k in ('ref', 'mseq', 'cref', 'iter', 'mslice', 'mitem'):
+            out.add(e[1])
+        if k in ('list', 'tuple'):
+            for x in e[1]:
+                self.refs(x, out)
+        elif k == 'dict':
+            for _, x in e[1]:
+                self.refs(x, out)
+        elif k == 'item':
+            self.refs(e[1], out)
+            self.refs(e[2], out)
+        elif k in ('wrap', 'custom'):
+            self.refs(e[1], out)
+        return out
+
+    def stmt_refs(self, i):
+        s = self.stmts[i]
+        out = set()
+        if s['kind'] == 'task':
+            for a in s['args']:
+                self.refs(a, out)
+            for _, a in s['kwargs']:
+                self.refs(a, out)
+        elif s['kind'] == 'map':
+            for a in s['inputs']:
+                self.refs(a, out)
+        elif s['kind'] == 'ident':
+            self.refs(s['arg'], out)
+        elif s['kind'] == 'cont':
+            for f in self.stmts:
+                if f['kind'] == 'fill' and f['cont'] == i:
+                    self.refs(f['arg'], out)
+        return out
+
+    def reaches(self, src, target):
+        seen, todo = set(), [src]
+        while todo:
+            x = todo.pop()
+            if x == target:
+                return True
+            if x in seen:
+                continue
+            seen.add(x)
+            todo.extend(self.stmt_refs(x))
+        return False
+
+    def gen_fill(self, k):
+        rng = self.rng
+        for _attempt in range(6):
+            arg = self.gen_arg(1)
+            if not any(self.reaches(x, k) for x in self.refs(arg, set())):
+                break
+        else:
+            arg = ['lit', rng.randrange(5)]
+        nfill = sum(1 for f in self.stmts if f['kind'] == 'fill' and f['cont'] == k)
+        self.stmts.append({'kind': 'fill', 'cont': k, 'key': 'k%d' % nfill, 'arg': arg})
+        self.types.append('F')
 
     def gen_index(self, depth=1):
         rng = self.rng
@@ -422,6 +513,9 @@ class Gen:
         tvars = self.vars_of('M', 'I', 'X')
         mvars = self.vars_of('M')
         maps = self.vars_of('MAP')
+        conts = self.vars_of('C')
+        if conts and rng.random() < 0.14:
+            return ['cref', rng.choice(conts)]
         if not (tvars or maps) or r < 0.10:
             return ['lit', rng.choice([0, 1, 2, 5, 'a', None, 1.5])]
         if r < 0.36 and tvars:
@@ -470,11 +564,18 @@ class Gen:
             mf.append('gg')
         ifs = rng.sample(I_FUNCS, rng.choice([1, 1, 2]))
         use_map = rng.random() < 0.6
+        use_cont = rng.random() < 0.45
         self.funcs = mf + ifs + (['mp'] if use_map else [])
         for _ in range(self.size):
             r = rng.random()
             tasks = [i for i, s in enumerate(self.stmts) if s['kind'] == 'task']
-            if use_map and r < 0.18:
+            conts = self.vars_of('C')
+            if use_cont and rng.random() < (0.5 if not conts else 0.08):
+                self.stmts.append({'kind': 'cont', 'ctype': rng.choice(['list', 'dict'])})
+                self.types.append('C')
+            elif use_cont and conts and rng.random() < 0.25:
+                self.gen_fill(rng.choice(conts))
+            elif use_map and r < 0.18:
                 n = rng.choice([0, 1, 2, 3, 4, 5, 6])
                 inputs = []
                 for _j in range(n):
@@ -503,6 +604,20 @@ class Gen:
                 kwargs = [[k, self.gen_arg()] for k in rng.sample(['p', 'q'], rng.choice([0, 0, 0, 1, 2]))]
                 self.stmts.append({'kind': 'task', 'fn': fn, 'args': args, 'kwargs': kwargs})
                 self.types.append('M' if fn in M_FUNCS else 'I')
+        # a container that some task received gets (more) content after that task was created
+        for k in self.vars_of('C'):
+            used = [i for i in range(len(self.stmts)) if self.stmts[i]['kind'] != 'cont' and k in self.stmt_refs(i)
+                    and self.stmts[i]['kind'] != 'fill']
+            if used and rng.random() < 0.8:
+                for _ in range(rng.choice([1, 1, 2])):
+                    fn = rng.choice(mf + ifs)
+                    self.stmts.append({'kind': 'task', 'fn': fn, 'args': [self.gen_arg(1)] if rng.random() < 0.6 else [], 'kwargs': []})
+                    self.types.append('M' if fn in M_FUNCS else 'I')
+                    if self.reaches(len(self.stmts) - 1, k):
+                        continue
+                    nfill = sum(1 for f in self.stmts if f['kind'] == 'fill' and f['cont'] == k)
+                    self.stmts.append({'kind': 'fill', 'cont': k, 'key': 'k%d' % nfill, 'arg': ['ref', len(self.stmts) - 1]})
+                    self.types.append('F')
         return {'funcs': self.funcs, 'stmts': self.stmts}
 
 
@@ -1140,12 +1255,23 @@ def run_program(ck, spec, state, backend, rng, root, ntargets, cases, metas, sta
             ck.count('proper subset of the tasks invalidated')
         if len(set(h for h, _, _ in info)) < len(info):
             ck.count('graph with two objects of one hash')
+        if not created_in_order(info):
+            ck.count('graph NOT created in dependency order (container filled after its consumer)')
         if len(ck.samples) < 4 and inv_n and ti == 0:
             ck.sample({'backend': backend, 'state': state, 'target': target, 'tasks': len(info),
                        'invalidated': inv_n, 'executed afterwards': len(obs['executed']), 'message': obs['msg']})
     for e in (base,):
         if e.backend in ('file', 'filepack'):
             shutil.rmtree(e.jd, ignore_errors=True)
+
+
+def created_in_order(info):
+    seen = set()
+    for h, _, deps in info:
+        if any(x not in seen for x in deps):
+            return False
+        seen.add(h)
+    return True
 
 
 def count_edges(ck, spec):
@@ -1180,6 +1306,8 @@ def count_edges(ck, spec):
             ck.count('edge via element of mapped sequence')
         elif k == 'ref':
             ck.count('edge via plain argument')
+        elif k == 'cref':
+            ck.count('edge via a container variable filled by later statements')
     for s in spec['stmts']:
         if s['kind'] == 'task':
             for a in s['args']:
@@ -1190,7 +1318,7 @@ def count_edges(ck, spec):
         elif s['kind'] == 'map':
             for a in s['inputs']:
                 walk(a)
-        else:
+        elif s['kind'] in ('ident', 'fill'):
             walk(s['arg'])
 
 
